@@ -92,7 +92,7 @@ def finish(rep, checker_cmd, rule, extra_cov=None):
         if sig in seen:
             continue
         seen.add(sig)
-        if len(seen) > 5:
+        if len(seen) > 3:
             break
         h = hashlib.sha1(json.dumps(v, ensure_ascii=False, sort_keys=True).encode()).hexdigest()[:12]
         path = os.path.join(VERIF, "replays", "%s-%s.json" % (rep.pid, h))
@@ -166,20 +166,35 @@ def strip_comments(src):
     return "".join(out)
 
 
+def ready_modules(pid):
+    """theorem modules registered as complete for this property (lean/READY.json)"""
+    reg = json.load(open(os.path.join(core.LEAN, "READY.json")))
+    return reg.get(pid, [])
+
+
 def lean_obligations(rep, pid, tier):
-    """build Props.<pid> and Audit.<pid>; parse `#print axioms`; grep for forbidden constructs"""
-    props = os.path.join(core.LEAN, "Calc", "Props", pid + ".lean")
-    audit = os.path.join(core.LEAN, "Calc", "Audit", pid + ".lean")
-    if not os.path.exists(props):
-        rep.notes.append("no theorem file yet for " + pid)
+    """build Props.<module> and Audit.<module> of every registered module of the property; parse
+    `#print axioms`; grep for forbidden constructs"""
+    mods = ready_modules(pid)
+    if not mods:
+        rep.notes.append("no theorem module registered yet for " + pid)
+        rc, out = core.lake_build(["calcdriver"])
+        if rc != 0:
+            raise InfraError(out[-2000:])
         return
-    targets = ["calcdriver", "Calc.Props." + pid]
-    if os.path.exists(audit):
-        targets.append("Calc.Audit." + pid)
-        # force the audit to print again: its output is the obligation
-        olean = os.path.join(core.LEAN, ".lake", "build", "lib", "lean", "Calc", "Audit", pid + ".olean")
-        if os.path.exists(olean):
-            os.remove(olean)
+    targets = ["calcdriver"]
+    audits = []
+    for m in mods:
+        targets.append("Calc.Props." + m)
+        audit = os.path.join(core.LEAN, "Calc", "Audit", m + ".lean")
+        if os.path.exists(audit):
+            audits.append(audit)
+            targets.append("Calc.Audit." + m)
+            # force the audit to print again: its output is the obligation
+            for ext in (".olean", ".ilean", ".trace", ".hash"):
+                f = os.path.join(core.LEAN, ".lake", "build", "lib", "lean", "Calc", "Audit", m + ext)
+                if os.path.exists(f):
+                    os.remove(f)
     rc, out = core.lake_build(targets)
     if rc != 0:
         # which module failed?
@@ -187,16 +202,17 @@ def lean_obligations(rep, pid, tier):
         detail = out[-1500:]
         if any(m.startswith("Calc.Props") or m.startswith("Calc.Proofs") or m.startswith("Calc.Audit") or m.startswith("Calc.Spec") for m in failed):
             errs = re.findall(r"error: (\S+?):(\d+):\d+: (.*)", out)
-            rep.oblige("lake build Calc.Props.%s" % pid, False, "failed modules: %s; first errors: %s" % (sorted(set(failed)), errs[:3]))
+            rep.oblige("lake build %s" % " ".join(targets[1:]), False, "failed modules: %s; first errors: %s" % (sorted(set(failed)), errs[:3]))
             rep.lean_failure = (sorted(set(failed)), errs[:5], detail)
             return
         raise InfraError("lake build failed outside the property's theorem files:\n" + detail)
-    rep.oblige("lake build Calc.Props.%s (kernel re-checks every theorem)" % pid, True)
+    rep.oblige("lake build %s (kernel re-checks every theorem)" % " ".join(t for t in targets[1:] if ".Props." in t), True)
     # axiom audit
     blocks = re.findall(r"'([^']+)' (depends on axioms: \[([^\]]*)\]|does not depend on any axioms)", out)
-    if os.path.exists(audit):
-        src = open(audit).read()
-        wanted = re.findall(r"#print axioms\s+(\S+)", strip_comments(src))
+    if audits:
+        wanted = []
+        for audit in audits:
+            wanted += re.findall(r"#print axioms\s+(\S+)", strip_comments(open(audit).read()))
         got = {}
         for name, _, axs in blocks:
             got[name] = set(a.strip() for a in axs.replace("\n", " ").split(",") if a.strip())
@@ -207,21 +223,30 @@ def lean_obligations(rep, pid, tier):
                 extra = got[w] - ALLOWED_AXIOMS
                 rep.oblige("axioms of %s ⊆ {propext, Classical.choice, Quot.sound}" % w, not extra, "extra: %s" % sorted(extra) if extra else "")
         rep.theorems = wanted
-    # forbidden constructs in the theorem cone
+    # forbidden constructs in the theorem cone (every Calc module the registered theorems import)
     bad = []
-    for root, _, files in os.walk(os.path.join(core.LEAN, "Calc")):
-        if os.sep + "Exec" in root:
+    seen, todo = set(), ["Calc.Props." + m for m in mods]
+    while todo:
+        mod = todo.pop()
+        if mod in seen or not mod.startswith("Calc."):
             continue
-        for fn in files:
-            if fn.endswith(".lean"):
-                src = strip_comments(open(os.path.join(root, fn)).read())
-                for ln, line in enumerate(src.splitlines(), 1):
-                    if FORBIDDEN_RE.search(line):
-                        bad.append("%s:%d %s" % (fn, ln, line.strip()[:60]))
-    rep.oblige("no sorry/admit/axiom/native_decide/bv_decide/implemented_by/unsafe/maxHeartbeats 0 in Calc/{Model,Spec,Proofs,Props,Generated}", not bad, "; ".join(bad[:5]))
+        seen.add(mod)
+        path = os.path.join(core.LEAN, *mod.split(".")) + ".lean"
+        if not os.path.exists(path):
+            continue
+        src = strip_comments(open(path).read())
+        todo += re.findall(r"^import\s+(\S+)", src, re.M)
+        if ".Exec." in mod:
+            continue
+        for ln, line in enumerate(src.splitlines(), 1):
+            if FORBIDDEN_RE.search(line):
+                bad.append("%s:%d %s" % (mod, ln, line.strip()[:60]))
+    rep.cone = sorted(seen)
+    rep.oblige("no sorry/admit/axiom/native_decide/bv_decide/implemented_by/unsafe/maxHeartbeats 0 in the %d modules of the theorem cone" % len(seen), not bad, "; ".join(bad[:5]))
     if tier == "thorough":
-        rc, o = core.sh(["lake", "env", "leanchecker", "Calc.Props." + pid], cwd=core.LEAN, timeout=3600)
-        rep.oblige("leanchecker Calc.Props.%s (independent re-check of the compiled theorems)" % pid, rc == 0, o[-300:])
+        for m in mods:
+            rc, o = core.sh(["lake", "env", "leanchecker", "Calc.Props." + m], cwd=core.LEAN, timeout=3600)
+            rep.oblige("leanchecker Calc.Props.%s (independent re-check of the compiled theorems)" % m, rc == 0, o[-300:])
 
 
 # ---------------------------------------------------------------------------------------------
